@@ -44,6 +44,8 @@ type scase struct {
 	Proto string              `json:"proto"`
 	Mode  string              `json:"mode"` // complete | hang
 	Sig   string              `json:"sig"`  // proc mode: term | hup
+	Bind  string              `json:"bind,omitempty"` // proc mode: how the listener addresses are written (ip4 | any4 | any6 | ip6; default ip4)
+	Via   string              `json:"via,omitempty"`  // proc mode: address family the clients connect over (ip4 | ip6; default ip4)
 	Conns map[string]connCase `json:"conns"`
 }
 
@@ -223,6 +225,7 @@ func stableAddr(shard int) string {
 
 type listenerInfo struct {
 	name, addr string
+	daddr      string // proc mode: the address the clients connect to (addr is how the listener address is written)
 	dial       func(addr string) (client, error)
 }
 
